@@ -451,3 +451,55 @@ class ItemsSeq(SymSeq):
     def kvc_todict(self, interp):
         mv = self.mv
         return FunDict(lambda q: mv.inf(q), lambda q: mv.wrap(mv.coef(q)))
+
+
+class Spelling:
+    """A blade spelling: a str-like sequence of a concrete number of characters, some of them symbolic (SChar)."""
+
+    def __init__(self, chars):
+        self.chars = list(chars)
+
+    def __iter__(self):
+        return iter(self.chars)
+
+    def __len__(self):
+        return len(self.chars)
+
+    def __bool__(self):
+        return len(self.chars) > 0
+
+    def __getitem__(self, i):
+        if isinstance(i, slice):
+            return Spelling(self.chars[i])
+        return self.chars[i]
+
+    def kvc_isinstance(self, interp, cls):
+        classes = cls if isinstance(cls, tuple) else (cls,)
+        return any(c is str for c in classes)
+
+    def __repr__(self):
+        return f'Spelling({self.chars})'
+
+
+def model_join(interp, sep, it):
+    xs = list(interp.iterate(it))
+    if all(isinstance(x, str) for x in xs):
+        return sep.join(xs)
+    if sep == '' and all(isinstance(x, (str, SChar)) for x in xs):
+        return Spelling(xs)
+    if all(isinstance(x, (str, SStr)) for x in xs):
+        parts = []
+        for i, x in enumerate(xs):
+            if i:
+                parts.append(sep)
+            parts.append(x)
+        from .engine import join_parts
+        return join_parts(parts)
+    return JoinText(sep, xs)
+
+
+class JoinText:
+    """sep.join(xs) with structured (non-string) parts."""
+
+    def __init__(self, sep, xs):
+        self.sep, self.xs = sep, xs
